@@ -264,13 +264,17 @@ let proto file =
                    | [ k; a; _ ] -> (try Some ((match k with "1" -> AMesh | "2" -> AImage | _ -> AAudio), nd a) with _ -> None)
                    | _ -> None) (String.split_on_char ',' items)
              | _ -> []) (find "PEND") in
-         (* the oracle flag of an applied download: no other download of the id is under way afterwards *)
-         (* downloads dropped on arrival (a download of a later request of the id had arrived before): no content *)
-         let drops = List.filter_map (fun l -> match split_ws l with
-             | [ _; _; k; a ] -> (try Some ((match k with "1" -> AMesh | "2" -> AImage | _ -> AAudio), nd a) with _ -> None)
-             | _ -> None) (find "DROP") in
-         let dls_flagged = List.map (fun (k, a) -> (((k, a), None), not (List.mem (k, a) real_pending))) drops
-                           @ List.map (fun ((k, a), v) -> (((k, a), Some v), not (List.mem (k, a) real_pending))) dls in
+         (* the registry of pending downloads logs its steps (REG lines, read in the same moment as PEND):
+            the model forgets the requests of an id in the frame in which the real registry removed its
+            entry (thread over, step 2, or applied, step 4, with the removed flag) - unless the id was
+            requested again afterwards in the same frame (it is listed in PEND again) *)
+         let removed = List.filter_map (fun l -> match split_ws l with
+             | [ _; _; ("2" | "4"); k; a; _; "1" ] -> (try Some ((match k with "1" -> AMesh | "2" -> AImage | _ -> AAudio), nd a) with _ -> None)
+             | _ -> None) (find "REG") in
+         let forgotten ka = List.mem ka removed && not (List.mem ka real_pending) in
+         let dls_flagged = List.map (fun ((k, a), v) -> (((k, a), Some v), forgotten (k, a))) dls
+                           @ List.filter_map (fun ka -> if forgotten ka && not (List.exists (fun (ka', _) -> ka' = ka) dls) then Some ((ka, None), true) else None)
+                               (List.sort_uniq compare removed) in
          (* request() runs inside the receiver: an announcement handled in THIS frame may already have
             its download applied by a process_*_assets system that runs later in the same frame *)
          List.iter (fun l -> match split_ws l with
